@@ -668,12 +668,34 @@ theorem Coll.deallocateArray_ext (cfg : Cfg) (c : Coll) (a count size : Nat) : C
     · exact CExt.refl _
     · exact CExt.refl _
 
+theorem Coll.reserveOp_ext (cfg : Cfg) (c : Coll) (size capacity : Nat) (env : List (Option Nat)) :
+    CExt c (c.reserveOp cfg size capacity env).st := by
+  unfold Coll.reserveOp
+  simp only
+  split
+  · exact CExt.refl _
+  · exact Coll.refill_ext cfg c _ _ env
+
+/-- **`reserve(size, capacity)`** (with the D34 repair): the invariant is kept in every outcome, the ledger is untouched -/
+theorem Coll.reserveOp_inv (cfg : Cfg) {arr arrLen : Nat} {c : Coll} {live : List (Nat × Nat)} (h : CInv arr arrLen c live)
+    (hf : cfg.fence ≤ 2 ^ 32) (size : Nat) {capacity : Nat} (hcap : capacity < 2 ^ 64) (env : List (Option Nat))
+    (hb : BlocksOk (c.reserveOp cfg size capacity env).st.arena.used) :
+    CInv arr arrLen (c.reserveOp cfg size capacity env).st live := by
+  unfold Coll.reserveOp at hb ⊢
+  simp only at hb ⊢
+  cases hl : c.lists[c.listIndex size]? with
+  | none => exact h
+  | some l =>
+    simp only [hl] at hb ⊢
+    exact h.refill cfg hf _ (growCapacity_lt l 64 capacity hcap) env hb
+
 theorem GCollA.step_ext (cfg : Cfg) (e : EnvS) (g : GCollA) (k : Nat) (op : COpA) : CExt g.c (g.step cfg e k op).1.c := by
   unfold GCollA.step
   cases op with
   | node op => exact GColl.step_ext cfg e ⟨g.c, g.live⟩ k op
   | allocArray count size => exact Coll.allocateArray_ext cfg g.c count size _
   | tryAllocArray count size => exact Coll.tryAllocateArray_ext cfg g.c count size
+  | reserve size capacity => exact Coll.reserveOp_ext cfg g.c size capacity _
   | deallocArray j =>
     simp only
     split
@@ -689,7 +711,12 @@ theorem GCollA.run_ext (cfg : Cfg) (e : EnvS) (ops : List COpA) : ∀ (g : GColl
   | nil => intro g k; exact CExt.refl _
   | cons op ops ih => intro g k; exact (GCollA.step_ext cfg e g k op).trans (ih _ _)
 
-theorem GCollA.step_inv (cfg : Cfg) (e : EnvS) {arr arrLen : Nat} (g : GCollA) (k : Nat) (op : COpA)
+/-- contract of an operation: the capacity passed to `reserve` is a `size_t` value -/
+def COpA.Fits : COpA → Prop
+  | .reserve _ capacity => capacity < 2 ^ 64
+  | _ => True
+
+theorem GCollA.step_inv (cfg : Cfg) (e : EnvS) {arr arrLen : Nat} (g : GCollA) (k : Nat) (op : COpA) (hfit : op.Fits)
     (h : CInv arr arrLen g.c g.live) (hf : cfg.fence ≤ 2 ^ 32) (hb : BlocksOk (g.step cfg e k op).1.c.arena.used) :
     CInv arr arrLen (g.step cfg e k op).1.c (g.step cfg e k op).1.live := by
   unfold GCollA.step at hb ⊢
@@ -697,6 +724,7 @@ theorem GCollA.step_inv (cfg : Cfg) (e : EnvS) {arr arrLen : Nat} (g : GCollA) (
   | node op => exact GColl.step_inv cfg e ⟨g.c, g.live⟩ k op h hf hb
   | allocArray count size => exact Coll.allocateArray_inv cfg h hf count size _ hb
   | tryAllocArray count size => exact Coll.tryAllocateArray_inv cfg h hf count size
+  | reserve size capacity => exact Coll.reserveOp_inv cfg h hf size hfit _ hb
   | deallocArray j =>
     simp only at hb ⊢
     cases hj : g.arrs[j]? with
@@ -719,13 +747,13 @@ theorem GCollA.step_inv (cfg : Cfg) (e : EnvS) {arr arrLen : Nat} (g : GCollA) (
 
 /-- **Preservation over a history of node and array operations** on a collection over intrusive lists -/
 theorem GCollA.run_inv (cfg : Cfg) (e : EnvS) {arr arrLen : Nat} (hf : cfg.fence ≤ 2 ^ 32) (ops : List COpA) :
-    ∀ (g : GCollA) (k : Nat), CInv arr arrLen g.c g.live → BlocksOk (g.run cfg e k ops).1.c.arena.used →
+    ∀ (g : GCollA) (k : Nat), (∀ op ∈ ops, op.Fits) → CInv arr arrLen g.c g.live → BlocksOk (g.run cfg e k ops).1.c.arena.used →
       CInv arr arrLen (g.run cfg e k ops).1.c (g.run cfg e k ops).1.live := by
   induction ops with
-  | nil => intro g k h _; exact h
+  | nil => intro g k _ h _; exact h
   | cons op ops ih =>
-    intro g k h hb
-    have hstep := GCollA.step_inv cfg e g k op h hf (hb.suffix (GCollA.run_ext cfg e ops _ _).used)
-    exact ih _ _ hstep hb
+    intro g k hfit h hb
+    have hstep := GCollA.step_inv cfg e g k op (hfit op (by simp)) h hf (hb.suffix (GCollA.run_ext cfg e ops _ _).used)
+    exact ih _ _ (fun o ho => hfit o (by simp [ho])) hstep hb
 
 end MemVerif.Model
